@@ -137,9 +137,18 @@ func (l *mLoc) rem(id string) map[string]bool {
 			continue
 		}
 		deps := l.dependents(x)
+		wasUnspec := l.Unspec[x]
 		delete(l.Items, x)
 		delete(l.Unspec, x)
 		deleted[x] = true
+		if wasUnspec {
+			// x may or may not have been there: it is gone now, but
+			// whether its dependents went with it is unknown.
+			for _, d := range deps {
+				l.markUnspecClosure(d)
+			}
+			continue
+		}
 		work = append(work, deps...)
 	}
 	// things that depended on an unspecified id stay as they are
